@@ -143,6 +143,32 @@ USER_EXC = {'ValueError': ValueError, 'KeyError': KeyError, 'TypeError': TypeErr
             'AssertionError': AssertionError, 'NameError': NameError}
 
 
+CONFS = ['default', 'default', 'tower', 'overrides', 'On', 'norandom', 'userviolation', 'warnviolation', 'debug']
+
+
+def _conf(token):
+    """Configurations the junk / valid families run under (the entry points are the same for every configuration; an option
+    may route a hint through code the default configuration never reaches)."""
+    from beartype import BeartypeConf, BeartypeStrategy, FrozenDict
+    if token in (None, 'default'):
+        return BeartypeConf()
+    return {'tower': lambda: BeartypeConf(is_pep484_tower=True),
+            'overrides': lambda: BeartypeConf(hint_overrides=FrozenDict({bytes: typing.Union[bytes, str]})),
+            'On': lambda: BeartypeConf(strategy=BeartypeStrategy.On),
+            'norandom': lambda: BeartypeConf(is_random=False),
+            'userviolation': lambda: BeartypeConf(violation_type=UserViolationError),
+            'warnviolation': lambda: BeartypeConf(violation_type=UserViolationWarning),
+            'debug': lambda: BeartypeConf(is_debug=True)}[token]()
+
+
+class UserViolationError(Exception):
+    pass
+
+
+class UserViolationWarning(UserWarning):
+    pass
+
+
 @st.composite
 def _case(draw, tier):
     if draw(st.integers(0, 5)) == 0:
@@ -154,14 +180,15 @@ def _case(draw, tier):
         node, _n = H.avoid_known_shapes(draw(H.hint_nodes(draw(st.sampled_from([1, 2, 2, 3])))))
         v = draw(H.violating(node))
         if v is not None:
-            return {'family': 'valid', 'hint': node, 'value': v[0]}
+            return {'family': 'valid', 'hint': node, 'value': v[0], 'conf': draw(st.sampled_from(CONFS))}
     if draw(st.integers(0, 150)) == 0:
         # deep-but-legal nesting (RecursionError must not leak); expensive, hence rare - depth 400 is exercised by the replay corpus
         prog = ['deep', draw(st.sampled_from(['list', 'tuple', 'dict', 'Sequence', 'Optional'])),
                 draw(st.sampled_from([30, 100, 100, 250]))]
         return {'family': 'junk', 'program': prog, 'obj': 'int'}
     d = draw(st.sampled_from([0, 1, 1, 2, 2, 3]))
-    return {'family': 'junk', 'program': draw(programs(d)), 'obj': draw(st.sampled_from(['int', 'str', 'none', 'list']))}
+    return {'family': 'junk', 'program': draw(programs(d)), 'obj': draw(st.sampled_from(['int', 'str', 'none', 'list'])),
+            'conf': draw(st.sampled_from(CONFS))}
 
 
 def strategy(tier):
@@ -207,6 +234,10 @@ def run_junk(case):
         return {'fails': [], 'nontrivial': False, 'classes': ['discarded:typing-refused'], 'evals': 0,
                 'extra': {'discarded_by_typing': 1}}
     obj = {'int': 7, 'str': 'x', 'none': None, 'list': [1, 'a']}[case['obj']]
+    conf = _conf(case.get('conf'))
+    bt = beartype(conf=conf)
+    import contextlib
+    import io
 
     def fail(ep, e, phase):
         sig = 'leak:%s:%s@%s' % (phase, type(e).__name__, _where(e))
@@ -226,21 +257,24 @@ def run_junk(case):
             except BaseException as e:
                 out, err = None, e
         for w in wl:
-            if not issubclass(w.category, (BeartypeWarning, DeprecationWarning)):
+            if not issubclass(w.category, (BeartypeWarning, DeprecationWarning, UserViolationWarning)):
                 sig = 'foreign-warning:%s' % w.category.__name__
                 if sig not in seen:
                     seen.add(sig)
                     fails.append({'sig': sig, 'detail': 'hint=%s ep=%s warned %s: %s' % (hrepr, ep, w.category.__name__, str(w.message)[:200])})
         if err is not None:
             raised_any = True
+            if isinstance(err, UserViolationError):
+                return out, err    # the configured violation class
             if not _public_beartype(err, base) and not (base is not BeartypeException and isinstance(err, BeartypeHintViolation)):
                 # exceptions that never entered beartype code (raised by typing while we call beartype's callee) do not count
                 if _in_beartype(err) or isinstance(err, BeartypeException):
                     fail(ep, err, phase)
         return out, err
-    guard('is_bearable', lambda: is_bearable(obj, hint), 'door')
-    guard('die_if_unbearable', lambda: die_if_unbearable(obj, hint), 'door')
+    guard('is_bearable', lambda: is_bearable(obj, hint, conf=conf), 'door')
+    guard('die_if_unbearable', lambda: die_if_unbearable(obj, hint, conf=conf), 'door')
     guard('TypeHint', lambda: TypeHint(hint), 'door')
+    guard('TypeHint.is_bearable', lambda: TypeHint(hint).is_bearable(obj, conf=conf), 'door')
     guard('is_subhint(h, int)', lambda: is_subhint(hint, int), 'door')
     guard('is_subhint(int, h)', lambda: is_subhint(int, hint), 'door')
 
@@ -257,18 +291,18 @@ def run_junk(case):
     _Dunder.__add__.__annotations__ = {'return': hint}
 
     def deco_dunder():
-        _Dunder.__add__ = beartype(_Dunder.__dict__['__add__'])
+        _Dunder.__add__ = bt(_Dunder.__dict__['__add__'])
         return lambda o: _Dunder() + o
     d, err = guard('decorate-dunder-return', deco_dunder, 'decor', BeartypeDecorException)
     if err is None and d is not None:
         guard('call-dunder-return', lambda: d(obj), 'call', BeartypeCallException)
     for name, f in (('param', fp), ('return', fr)):
-        deco, err = guard('decorate-' + name, lambda: beartype(f), 'decor', BeartypeDecorException)
+        deco, err = guard('decorate-' + name, lambda: bt(f), 'decor', BeartypeDecorException)
         if err is None and deco is not None:
             guard('call-' + name, lambda: deco(obj), 'call', BeartypeCallException)
     nontriv = raised_any or _junk_score(case['program']) > 0
     return {'fails': fails, 'nontrivial': nontriv, 'evals': evals,
-            'classes': ['junk', 'raised' if raised_any else 'accepted', 'root:' + case['program'][0]]}
+            'classes': ['junk', 'raised' if raised_any else 'accepted', 'root:' + case['program'][0], 'conf:' + (case.get('conf') or 'default')]}
 
 
 _UNIQ = [0]
@@ -342,6 +376,8 @@ def run_valid(case):
     hint = H.build(case['hint'])
     fails, seen = [], set()
     evals = 0
+    conf = _conf(case.get('conf'))
+    bt = beartype(conf=conf)
 
     def fp(p):
         return None
@@ -353,13 +389,13 @@ def run_valid(case):
     with warnings.catch_warnings():
         warnings.simplefilter('ignore')
         try:
-            dp, dr = beartype(fp), beartype(fr)
+            dp, dr = bt(fp), bt(fr)
         except Exception as e:
             dp = dr = None
             if not _public_beartype(e):
                 fails.append({'sig': 'leak:decor:%s@%s' % (type(e).__name__, _where(e)), 'detail': 'hint=%r: %r' % (hint, e)})
-        calls = [('is_bearable', lambda o: is_bearable(o, hint)), ('die_if_unbearable', lambda o: die_if_unbearable(o, hint)),
-                 ('TypeHint.die_if_unbearable', lambda o: TypeHint(hint).die_if_unbearable(o))]
+        calls = [('is_bearable', lambda o: is_bearable(o, hint, conf=conf)), ('die_if_unbearable', lambda o: die_if_unbearable(o, hint, conf=conf)),
+                 ('TypeHint.die_if_unbearable', lambda o: TypeHint(hint).die_if_unbearable(o, conf=conf))]
         if dp is not None:
             calls += [('call-param', dp), ('call-return', dr)]
         for ep, fn in calls:
@@ -367,13 +403,14 @@ def run_valid(case):
             try:
                 fn(H.realize(case['value']))
             except BaseException as e:
-                if not _public_beartype(e):
+                if not _public_beartype(e) and not isinstance(e, UserViolationError):
                     sig = 'leak:violation-path:%s@%s' % (type(e).__name__, _where(e))
                     if sig not in seen:
                         seen.add(sig)
                         fails.append({'sig': sig, 'detail': 'hint=%s obj=%r ep=%s raised %s: %s' % (
                             H.describe(case['hint']), H.realize(case['value']), ep, type(e).__name__, str(e)[:300])})
-    return {'fails': fails, 'nontrivial': True, 'evals': evals, 'classes': ['valid-hint', 'root:' + case['hint'][0]]}
+    return {'fails': fails, 'nontrivial': True, 'evals': evals,
+            'classes': ['valid-hint', 'root:' + case['hint'][0], 'conf:' + (case.get('conf') or 'default')]}
 
 
 def run_case(case):
